@@ -178,6 +178,23 @@ def check(an, rep, tier):
             '' if okp else 'a selected row must be masked in S before F is '
             're-masked in the same iteration (otherwise the row can be '
             'selected twice): %s' % why, line=fn.node.lineno, file=mod.path)
+    # row-norm stop criterion uses the accuracy parameter of maxvol_rect
+    okt = False
+    for lp in loops:
+        for st in lp.body:
+            if isinstance(st, ast.If) and any(isinstance(b, ast.Break)
+                                              for b in st.body):
+                names = [x.id for x in ast.walk(st.test)
+                         if isinstance(x, ast.Name)]
+                e_par = fn.params[1] if len(fn.params) > 1 else 'e'
+                okt = names.count(e_par) >= 1 and 'F' in names and \
+                    not any(n_ in ('e0', 'k0') for n_ in names)
+    rep.add('P-threshold', 'maxvol.maxvol_rect', 'greedy loop stops on '
+            'F[i] <= e*e', 'ok' if okt else 'violation',
+            '' if okt else 'the early-stop test of the greedy additions must '
+            'compare the largest residual row norm with the accuracy '
+            'parameter e of maxvol_rect (not with the tolerance of the inner '
+            'maxvol)', line=fn.node.lineno, file=mod.path)
     init = False
     for i, st in enumerate(fn.node.body):
         if isinstance(st, ast.Assign) and \
